@@ -1974,8 +1974,12 @@ rawrep_case(long idx, vf_rng *r)
 				// comes back.  The request may be lost with the old pipe
 				// or wait for the new one: send it again, ignore stale ones.
 				close(fd);
-				if ((fd = vf_tcp_accept(lfd, 10000)) < 0 || vf_sp_handshake(fd, fm->rep_proto, &peer, 5000) != 0) {
-					vf_violation("C13/service-lost-after-malformed", "%s: after a malformed reply the device's dialer did not come back within 10 s", ctx);
+				int hs = 0;
+				if ((fd = vf_tcp_accept(lfd, 10000)) < 0 || (hs = vf_sp_handshake(fd, fm->rep_proto, &peer, 5000)) != 0) {
+					vf_violation("C13/service-lost-after-malformed", "%s: after a malformed reply disconnected the raw peer, the device's dialer did not come back within 10 s (%s; back socket pipes: %d added, %d removed)", ctx, fd < 0 ? "no new connection" : hs == -1 ? "SP header write failed" : hs == -2 ? "no SP header from the dialer within 5 s" : "bad SP header", atomic_load(&pcb->adds), atomic_load(&pcb->rems));
+					if (fd >= 0) {
+						close(fd);
+					}
 					fd = -1;
 					break;
 				}
